@@ -18,6 +18,10 @@ type acceptLoop struct {
 	Loop   map[*ssa.BasicBlock]bool
 	Conn   ssa.Value   // accepted connection (Extract #0)
 	Err    ssa.Value   // Extract #1
+	// step-function shape: the accept call sits in a helper without a loop of its own that a caller invokes
+	// from a loop (`for l.acceptNext() {}`); Loop is then the whole helper, Outer/OuterLoop the caller's cycle
+	Outer     *ssa.Function
+	OuterLoop map[*ssa.BasicBlock]bool
 }
 
 func isAcceptPrimitive(f *types.Func) string {
@@ -92,10 +96,27 @@ func findAcceptLoops(w *World) []acceptLoop {
 				continue
 			}
 			loop := cycleThrough(call.Block())
-			if loop == nil {
-				continue
-			}
 			al := acceptLoop{Fn: fn, Call: call, Kind: kind, Loop: loop}
+			if loop == nil {
+				// called from a loop?
+				for _, g := range fns {
+					for _, c2 := range callsIn(g) {
+						if _, isCall := c2.(*ssa.Call); !isCall || c2.Common().StaticCallee() != fn {
+							continue
+						}
+						if ol := cycleThrough(c2.Block()); ol != nil && al.Outer == nil {
+							al.Outer, al.OuterLoop = g, ol
+						}
+					}
+				}
+				if al.Outer == nil {
+					continue
+				}
+				al.Loop = map[*ssa.BasicBlock]bool{}
+				for _, b := range fn.Blocks {
+					al.Loop[b] = true
+				}
+			}
 			for _, ref := range *call.Referrers() {
 				if ex, ok := ref.(*ssa.Extract); ok {
 					if ex.Index == 0 {
@@ -408,6 +429,10 @@ func ruleAcceptLoopNotOccupied(w *World, r *Report, rule string, kinds map[strin
 			}
 		}
 		scan(al.Fn, func(b *ssa.BasicBlock) bool { return al.Loop[b] }, 0, "")
+		if al.Outer != nil {
+			seenFn[al.Fn] = true
+			scan(al.Outer, func(b *ssa.BasicBlock) bool { return al.OuterLoop[b] }, 0, "")
+		}
 		r.Check(bad == "", rule, key, pos,
 			fmt.Sprintf("%d synchronous and %d goroutine call(s) receive the accepted connection; no synchronous one can wait for the peer; no channel/wait-group parking in the loop", nsync, nasync), bad,
 			"sync_calls", nsync, "go_calls", nasync)
@@ -449,7 +474,16 @@ func ruleAcceptErrorSpin(w *World, r *Report, rule string) {
 		paths := 0
 		ok := enumPaths(al.Fn, al.Call, isLive, func(in ssa.Instruction) bool { return in == ssa.Instruction(al.Call) }, func(e pathExit) {
 			if e.Stop == nil {
-				return // returned or panicked
+				ret, isRet := e.Last.(*ssa.Return)
+				if !isRet || al.Outer == nil {
+					return // returned or panicked
+				}
+				// step function: returning hands control back to the caller's loop, unless the result tells it to stop
+				if len(ret.Results) == 1 {
+					if b, isC := constBool(e.State.Resolve(ret.Results[0])); isC && !b {
+						return
+					}
+				}
 			}
 			paths++
 			isNil, known := e.State.NilKnown(al.Err)
